@@ -5,11 +5,12 @@ TIE_EXTRA = {
     "tensorbuild": {
         "gen": ["TensorBuildGen.v"],
         "vo": "proofs/GenTensorBuild_equiv.vo",
-        "theorems": ["gen_coordinates_to_tree_ok", "arrays_ok", "gen_from_aos_raw", "gen_from_aos_of_build",
-                     "gen_from_aos_index_error", "gen_from_dok_is_from_aos", "gen_roundtrip"],
+        "theorems": ["gen_coordinates_to_tree_ok", "gen_arrays_ok", "gen_validate_equiv", "gen_from_aos_equiv",
+                     "gen_from_aos_general", "gen_from_dok_equiv", "gen_from_soa_equiv", "gen_from_lol_equiv",
+                     "gen_items_equiv", "gen_to_dok_equiv", "gen_roundtrip_full"],
         "source": "tensor.py (coordinates_to_tree, tree_to_indices_and_values, Tensor.from_aos/from_dok/from_soa/from_lol, "
                   "lol_to_coordinates_and_values, Tensor.items, Tensor.to_dok), compile/_cffi_ownership.py (validation), "
                   "format/_format.py (Mode, Format)",
-        "model": "coq/model/TensorBuild.v (build / raw_build / emit)",
+        "model": "coq/model/TensorBuild.v (build, from_aos/from_dok/from_soa/from_lol, validate, emit, to_dok), spec/Storage.v (entries)",
     },
 }
